@@ -259,16 +259,16 @@ fn check_inner(c: &Case, obs: &mut Obs, allow_same_day: bool) -> Verdict {
 }
 
 fn run(ctx: &Ctx) {
-    if !ctx.run_prop("plain", RULE, ctx.cases(1500, 120_000), strat_plain, check) {
+    if !ctx.run_prop("plain", RULE, ctx.cases(1500, 240_000), strat_plain, check) {
         return;
     }
-    if !ctx.run_prop("with_splits", RULE, ctx.cases(1000, 120_000), strat_split, check) {
+    if !ctx.run_prop("with_splits", RULE, ctx.cases(1000, 240_000), strat_split, check) {
         return;
     }
-    if !ctx.run_prop("with_asset_events", RULE, ctx.cases(800, 80_000), strat_events, check) {
+    if !ctx.run_prop("with_asset_events", RULE, ctx.cases(800, 160_000), strat_events, check) {
         return;
     }
-    if !ctx.run_prop("same_day_split_or_event", RULE, ctx.cases(800, 80_000), strat_same_day, check_same_day) {
+    if !ctx.run_prop("same_day_split_or_event", RULE, ctx.cases(800, 160_000), strat_same_day, check_same_day) {
         return;
     }
     crate::props::proc_checks::c06_cli(ctx);
